@@ -86,14 +86,14 @@ CLAIMS = {
         note="Trusted: TLC, zoo renderer, xpath text renderer. Malformed-text rejection of the legacy parser shares the grammar of C17 and is exercised there only for the current parser.",
         design="6 C20"),
     "C18": dict(
-        technique="TLA+ transition machine of the legacy operations (Legacy.tla, transcribed critical section by critical section) model-checked by TLC with the C18 clauses as invariants (LegacyMC.tla) + TLC-generated witness programs of every model transition executed against the real classes + two TLC trace validations of every distinct observed transition: exact next-state conformance with the machine (Trace_LegacyMachine.tla) and the C18 clauses on the observed states (LegacyMonitor.tla / Trace_Legacy.tla); user transformations via TLC-enumerated programs (LegacyScripts.tla) judged by the monitor",
-        text="(a) TLC explores Legacy.tla itself: every history of bounded length over construct (three modes), attach, detach, detach_self, replace of a property / of children / with a forbidden key, replace_with a node or None, duplicate attached / detached, with states [objects with stored id / original id / parent id, field, index / cached content id; registry]; invariants: children attached with right parent / field / index, parent back link, cached content id equal to the structural one -- for histories of successful operations without double placement in which no node ever shared its id with a node below it (the recorded deviation id-twin-nested; without that guard TLC finds it). (b) TLC exports the witness program of every transition; these, TLC-enumerated programs with transform visitors / transformers (rules keep / bump / fresh / drop / boom) and random 12-step programs over six classes are executed against the real classes. (c) Every distinct observed transition (full pre-state incl. stored links and registry, operation, outcome, post-state) of a modelled operation must be exactly the transition Legacy.tla predicts; every transition from a consistent history is judged by the five C18 clauses on the observed post-state (incl. content_id equal to an independently built equal tree; ancestors / depth / calculated xpath).",
+        technique="TLA+ transition machine of the legacy operations (Legacy.tla, transcribed critical section by critical section) model-checked by TLC with the C18 clauses as invariants (LegacyMC.tla) + TLC-generated witness programs of every model transition executed against the real classes + two TLC trace validations of every distinct observed transition: exact next-state conformance with the machine (Trace_LegacyMachine.tla) and the C18 clauses on the observed states (LegacyMonitor.tla / Trace_Legacy.tla); a blind TLC enumeration of all short programs (LegacyScripts.tla) as a cross-check",
+        text="(a) TLC explores Legacy.tla itself: every history of bounded length over construct (three modes), attach, detach, detach_self, replace of a property / of children / with a forbidden key, replace_with a node or None, duplicate attached / detached, ASTTransformVisitor.transform and ASTTransformer.execute with five kinds of user rule (keep / bump / fresh / drop / boom), with states [objects with stored id / original id / parent id, field, index / cached content id; registry]; invariants: children attached with right parent / field / index, parent back link, cached content id equal to the structural one -- for histories of successful operations without double placement in which no node ever shared its id with a node below it (the recorded deviation id-twin-nested; without that guard TLC finds it). (b) TLC exports the witness program of every transition (also from Prelude states: every operation two / three deep after a given program); these, a blind enumeration of all programs of three operations and random 12-step programs over six classes are executed against the real classes. (c) Every distinct observed transition (full pre-state incl. stored links and registry, operation, outcome, post-state) of a modelled operation must be exactly the transition Legacy.tla predicts; every transition from a consistent history is judged by the five C18 clauses on the observed post-state (incl. content_id equal to an independently built equal tree; ancestors / depth / calculated xpath).",
         note="A clause failure is a KNOWN-FINDING only if the observed state is exactly what the machine predicts and has the shape id-twin-nested; transitions that differ from the machine without failing a clause are counted (model_divergences), not alarms. Cached content ids are bound through cidok on lines without stale caches.",
         design="6 C18, Appendix A, 14.7"),
     "C19": dict(
         technique="same machine, executions and trace validations as C18; C19 as invariants of the design in LegacyMC.tla (a rejected operation leaves the state unchanged unless the error came out of the attach phase) and as the frame predicate of LegacyMonitor.tla on every observed rejected transition",
         text="TLC checks on Legacy.tla that every rejected operation from a clean history leaves the whole state unchanged except when the error is raised inside _attach_inner after earlier children were linked / registered (the named deviation partial-attach-effects), and that DuplicateChildren / IDCollision / ReplaceError never go with effects. Every distinct observed rejected transition (documented legacy errors incl. ASTTransformError) from a state reached through successful operations is validated by TLC against the C19 frame: attached?, parent / field / index, field values, id, original id, content_id of every pre-existing node and the registry size unchanged; and, for modelled operations, against the machine's exact prediction.",
-        note="A frame failure is KNOWN-FINDING partial-attach-effects only if the observed post-state is exactly the partial state Legacy.tla predicts for an attach-phase error; for ASTTransformer.execute (not modelled) the shape predicate of transformer-partial-effects applies. Anything else is a VIOLATION.",
+        note="A frame failure is a KNOWN-FINDING only if the observed post-state is exactly the partial state Legacy.tla predicts: for an attach-phase error partial-attach-effects, for ASTTransformer.execute after earlier replacements transformer-partial-effects. Anything else is a VIOLATION. LegacyMC also checks C19VisitorAtomic (a failed visitor transformation of an attached node changes nothing).",
         design="6 C19, 7, 14.7"),
     "C10": dict(
         technique="TLA+ action properties (Immutable, MembershipFrame, FailFrame) on Registry.tla + Observe actions replayed with per-step fingerprints of every live node",
